@@ -87,6 +87,7 @@ typedef struct {
 	int pkey_null_usages_differs;
 	int ntcb; uint32_t tcb[MAXCERTS][4];
 	int dyn_lookups, dyn_returned, dyn_freed, dyn_badlen, dyn_unknown_free;
+	int time_history, stale_time_calls;
 } result_t;
 
 enum { AM_STATIC = 0, AM_DYNAMIC = 1, AM_MIXED = 2 };
@@ -411,6 +412,16 @@ static int time_cb(void *vctx, uint32_t nbd, uint32_t nbs, uint32_t nad, uint32_
 	return 0;
 }
 
+/* a callback from an earlier configuration of the same context: whatever it says must not matter once
+   br_x509_minimal_set_time() or another callback has been installed; calls are counted */
+static int g_stale_time_calls;
+static int time_cb_stale(void *vctx, uint32_t nbd, uint32_t nbs, uint32_t nad, uint32_t nas)
+{
+	(void)nbs; (void)nad; (void)nas;
+	g_stale_time_calls ++;
+	return vctx ? 0 : (nbd & 1) ? 1 : -1;
+}
+
 /* ------------------------------------------------------------------ */
 /* one validation */
 
@@ -470,6 +481,13 @@ static void run_chain(case_t *c, int amode, int chmode, uint64_t chseed, result_
 		}
 	}
 	tctx.c = c; tctx.r = r;
+	/* the time source is what was set last: in a third of the cases the context first gets another time
+	   (a day far from every validity period) or another callback (one that accepts / refuses everything) */
+	g_stale_time_calls = 0;
+	switch ((c->days + c->secs + (uint32_t)c->ncerts) % 6) {
+	case 1: br_x509_minimal_set_time_callback(xc, (c->secs & 1) ? (void *)xc : NULL, &time_cb_stale); r->time_history = 1; break;
+	case 4: br_x509_minimal_set_time(xc, (c->secs & 1) ? 100 : 1500000, 7); r->time_history = 2; break;
+	}
 	if (c->tmode || g_variant == 2) br_x509_minimal_set_time_callback(xc, &tctx, &time_cb);
 	else br_x509_minimal_set_time(xc, c->days, c->secs);
 	if (c->minrsa >= 0 && g_variant != 10) br_x509_minimal_set_minrsa(xc, c->minrsa);
@@ -592,6 +610,7 @@ static void run_chain(case_t *c, int amode, int chmode, uint64_t chseed, result_
 		free(nes[i].buf);
 	}
 	free(nes);
+	r->stale_time_calls = g_stale_time_calls;
 	/* anchors still alive: never freed by the library */
 	while (dyn.nlive > 0) {
 		const br_x509_trust_anchor *ta = dyn.live[-- dyn.nlive];
@@ -731,6 +750,14 @@ int main(int argc, char **argv)
 		/* (6) chunking */
 		run_chain(&c, AM_STATIC, CH_WHOLE, 0, &r0);
 		run_chain(&c, AM_STATIC, CH_RANDOM, c.chunk, &r1);
+		if (r0.time_history) {
+			vf_stat(r0.time_history == 1 ? "time_set_after_other_callback" : "time_set_after_other_time", 1);
+			if (r0.stale_time_calls || r1.stale_time_calls) {
+				key_of(key, sizeof key, "replaced-time-callback-used", &c);
+				snprintf(extra, sizeof extra, "calls=%d", r0.stale_time_calls);
+				vf_viol(key, "a time callback that was replaced by br_x509_minimal_set_time / another callback is still consulted", "%s", case_desc(&c, extra));
+			}
+		}
 		vf_stat("cmp_chunking", 1);
 		if (!same_result(&r0, &r1)) {
 			key_of(key, sizeof key, "chunking", &c);
